@@ -952,6 +952,69 @@ func crRule(c *core.Ctx, key string, fn *ssa.Function, pack bool) {
 		found = found && strip
 	}
 	c.Decide(found, "C08-CR", key, pos, detail, "CR padding rule not found: "+detail)
+	// mode: in the two stream transformers the CR fill / strip belongs to the packed form only. The instruction that fills
+	// (x | 0x0d<<1) resp. strips (septets[:len-1]) must be dominated by the true edge of a test of the receiver's `packed`
+	// flag; otherwise the unpacked form loses a genuine trailing CR (or gains one).
+	if fn.Signature.Recv() != nil {
+		var sites []ssa.Instruction
+		for _, b := range fn.Blocks {
+			for _, ins := range b.Instrs {
+				switch x := ins.(type) {
+				case *ssa.BinOp:
+					if pack && x.Op == token.OR {
+						if k, ok := constInt(x.Y); ok && k == 0x0d<<1 {
+							sites = append(sites, x)
+						}
+					}
+				case *ssa.Slice:
+					if !pack && x.Low == nil && x.High != nil {
+						if sub, ok := x.High.(*ssa.BinOp); ok && sub.Op == token.SUB {
+							if k, ok := constInt(sub.Y); ok && k == 1 {
+								if l, ok := sub.X.(*ssa.Call); ok && role(plain, l) == "len("+role(plain, x.X)+")" {
+									sites = append(sites, x)
+								}
+							}
+						}
+					}
+				}
+			}
+		}
+		isPackedLoad := func(v ssa.Value) bool {
+			u, ok := v.(*ssa.UnOp)
+			if !ok {
+				return false
+			}
+			_, f, ok := fieldOfAddr(u.X)
+			return ok && f.Name() == "packed"
+		}
+		underPacked := func(b *ssa.BasicBlock) bool {
+			for d := b.Idom(); d != nil; d = d.Idom() {
+				ifi, ok := d.Instrs[len(d.Instrs)-1].(*ssa.If)
+				if !ok || !isPackedLoad(ifi.Cond) {
+					continue
+				}
+				if d.Succs[0] != d.Succs[1] && (d.Succs[0] == b || d.Succs[0].Dominates(b)) {
+					return true
+				}
+			}
+			return false
+		}
+		var bad []string
+		for _, sx := range sites {
+			if !underPacked(sx.Block()) {
+				bad = append(bad, c.Prog.Pos(sx.Pos()))
+			}
+		}
+		what := map[bool]string{true: "CR fill", false: "CR strip"}[pack]
+		switch {
+		case len(sites) == 0:
+			c.Unknown("C08-CR", key+"#mode", pos, "no "+what+" instruction found in the transformer")
+		case len(bad) > 0:
+			c.Fail("C08-CR", key+"#mode", pos, "the "+what+" at "+strings.Join(bad, ", ")+" is not confined to the packed form (not dominated by `packed == true`): the unpacked form is altered")
+		default:
+			c.OK("C08-CR", key+"#mode", pos, what+" only under packed == true")
+		}
+	}
 }
 
 var _ = load.Module
